@@ -19,7 +19,7 @@ RULE = ("seeded random exports (0-6 sessions, both layouts, 0-4 contests, 0-6 ma
         "x pool_groups; non-trivial = some candidate has >= 2 marks or a Modified block is present; distinct = hash of "
         "(export, options)")
 REQUIRED = ["ref_compared", "meta:marks_shuffled", "meta:sorted_keys", "meta:modified_first", "layout:cards",
-            "layout:contests", "obfuscated_record_ids", "sessions_with_modified", "sessions_whose_blocks_use_different_layouts",
+            "layout:contests", "obfuscated_record_ids", "obfuscated_record_ids_whose_number_is_0", "sessions_with_modified", "sessions_whose_blocks_use_different_layouts",
             "group_options_given_as_tuple_set_or_frozenset", "duplicate_marks_contests",
             "uncounted_marks_contests", "directory_reads", "group_filtered_out"]
 ASSUMPTIONS = ["a contest appears at most once per data block of a session (the property does not say which copy wins)"]
@@ -62,7 +62,7 @@ def gen_export(rng):
     sessions = []
     for s in range(ns):
         all_c = rng.sample([11, 12, 13, 14], rng.randint(0, 4))
-        tab, batch, recid = rng.randint(1, 99), rng.randint(1, 20), rng.randint(1, 500)
+        tab, batch, recid = rng.randint(1, 99), rng.randint(1, 20), rng.choice((rng.randint(1, 500), rng.randint(1, 500), 0))   # (record numbers start wherever the vendor starts them)
         sess = {"TabulatorId": tab, "BatchId": batch, "RecordId": recid, "CountingGroupId": rng.choice((1, 2)),
                 "ImageMask": rng.choice(("D:\\\\NAS\\\\Images\\\\", "D:\\\\NAS\\\\2024_11_05 GENERAL\\\\Results\\\\Images\\\\",
                                          "E:\\\\3_4_5\\\\Tabulator00007\\\\Batch003\\\\Images\\\\", ""))
@@ -222,6 +222,8 @@ def run_case(case, rec):
                             rec.count("uncounted_marks_contests")
             if s["RecordId"] == "X":
                 rec.count("obfuscated_record_ids")
+                if s["ImageMask"].split("*")[0].endswith("_000000"):
+                    rec.count("obfuscated_record_ids_whose_number_is_0")
             if opts["include_groups"] and s["CountingGroupId"] not in opts["include_groups"]:
                 rec.count("group_filtered_out")
         rec.case(case, nontrivial=nontriv, sample={"opts": opts, "layout": case["layout"],
